@@ -438,7 +438,9 @@ class Gen:
             t = r.choice("idbs")
             v = self.var(t)
             self.count("let")
-            e = self.expr(t, 2, scope)
+            # inside a loop a string is never built from string variables (s = s + s doubles per iteration: nested loops
+            # would need gigabytes on both sides)
+            e = self.expr(t, 2, scope if not (inloop and t == "s") else {x for x in scope if x[0].lower() != "s"})
             scope.add(v)
             return ("let", v, e)
         if c < 0.45:
@@ -501,7 +503,7 @@ class Gen:
         self.count("let")
         t = r.choice("idbs")
         v = self.var(t)
-        e = self.expr(t, 2, scope)
+        e = self.expr(t, 2, scope if not (inloop and t == "s") else {x for x in scope if x[0].lower() != "s"})
         scope.add(v)
         return ("let", v, e)
 
